@@ -135,36 +135,66 @@ def ensure_makefile():
             raise RuntimeError("coq_makefile failed: " + out)
 
 
-def grep_gate():
-    """No Admitted/admit/Axiom/Parameter/... anywhere in the development."""
+def _strip_comments(txt):
+    depth = 0
+    out = []
+    i = 0
+    while i < len(txt):
+        if txt.startswith("(*", i):
+            depth += 1
+            i += 2
+        elif txt.startswith("*)", i) and depth > 0:
+            depth -= 1
+            i += 2
+        else:
+            if depth == 0:
+                out.append(txt[i])
+            i += 1
+    return "".join(out)
+
+
+def cone_of(vfile):
+    """The .v files (relative to coq/) that vfile transitively Requires from
+    this development (logical prefix WV)."""
+    seen = []
+    todo = [vfile]
+    while todo:
+        f = todo.pop()
+        if f in seen or not os.path.exists(os.path.join(COQ, f)):
+            continue
+        seen.append(f)
+        code = _strip_comments(open(os.path.join(COQ, f)).read())
+        for m in re.finditer(r"From\s+WV\s+Require\s+(?:Import|Export)?\s*([^.]*(?:\.[A-Za-z_][^.]*)*?)\.(?:\s|$)", code):
+            for name in m.group(1).split():
+                todo.append(name.replace(".", "/") + ".v")
+        for m in re.finditer(r"Require\s+(?:Import|Export)?\s+((?:WV\.[\w.]+\s*)+)\.(?:\s|$)", code):
+            for name in m.group(1).split():
+                todo.append(name[3:].replace(".", "/") + ".v")
+    return seen
+
+
+def grep_gate(files=None):
+    """No Admitted/admit/Axiom/Parameter/... in the given files (default: the
+    whole development)."""
     bad = []
-    for d in COQ_DIRS + ["Extract", "Findings"]:
-        for f in sorted(glob.glob(os.path.join(COQ, d, "*.v"))):
-            txt = open(f).read()
-            # strip comments (non-nested is enough for our files; nested handled conservatively)
-            depth = 0
-            out = []
-            i = 0
-            while i < len(txt):
-                if txt.startswith("(*", i):
-                    depth += 1
-                    i += 2
-                elif txt.startswith("*)", i) and depth > 0:
-                    depth -= 1
-                    i += 2
-                else:
-                    if depth == 0:
-                        out.append(txt[i])
-                    i += 1
-            code = "".join(out)
-            for m in FORBIDDEN.finditer(code):
-                # Section-local Variable/Hypothesis are allowed only inside a Section
-                word = m.group(0)
-                if word.split()[0] in ("Variable", "Variables", "Hypothesis", "Hypotheses"):
-                    before = code[: m.start()]
-                    if len(re.findall(r"\bSection\s+\w+", before)) > len(re.findall(r"\bEnd\s+\w+", before)):
-                        continue
-                bad.append("%s: %s" % (os.path.relpath(f, VERIF), word))
+    if files is None:
+        files = []
+        for d in COQ_DIRS + ["Extract", "Findings"]:
+            files += sorted(glob.glob(os.path.join(COQ, d, "*.v")))
+    else:
+        files = [os.path.join(COQ, f) for f in files]
+    for f in files:
+        if not os.path.exists(f):
+            continue
+        code = _strip_comments(open(f).read())
+        for m in FORBIDDEN.finditer(code):
+            # Section-local Variable/Hypothesis are allowed only inside a Section
+            word = m.group(0)
+            if word.split()[0] in ("Variable", "Variables", "Hypothesis", "Hypotheses"):
+                before = code[: m.start()]
+                if len(re.findall(r"\bSection\s+\w+", before)) > len(re.findall(r"\bEnd\s+\w+", before)):
+                    continue
+            bad.append("%s: %s" % (os.path.relpath(f, VERIF), word))
     return bad
 
 
@@ -335,9 +365,18 @@ class Ctx:
         self.oblige("translators accept the source", not probs, "; ".join(probs))
         return probs
 
-    def gate(self):
-        bad = grep_gate()
-        self.oblige("no Admitted/admit/Axiom/Parameter/... in the development", not bad, "; ".join(bad))
+    def gate(self, extra=()):
+        """Grep gate over everything the property's theorems depend on (the
+        Require cone of Props/<prop>.v), the Extract and Findings files, and any
+        extra files named by the check.  tools/gate_all.py applies the same gate
+        to the whole development."""
+        cone = cone_of("Props/%s.v" % self.prop)
+        for e in extra:
+            cone += [f for f in cone_of(e) if f not in cone]
+        others = [os.path.relpath(f, COQ) for d in ("Extract", "Findings") for f in sorted(glob.glob(os.path.join(COQ, d, "*.v")))]
+        bad = grep_gate(cone + [f for f in others if f not in cone])
+        self.coverage["gate_files"] = len(cone)
+        self.oblige("no Admitted/admit/Axiom/Parameter/... in the %d files the theorems depend on (nor in Extract/, Findings/)" % len(cone), not bad, "; ".join(bad))
         return bad
 
     def build(self, targets):
